@@ -89,6 +89,9 @@ func c11Scenarios(tier string) []Scenario {
 		if len(s.Dgs) >= 4 && !thorough {
 			s.Bound--
 		}
+		if thorough && len(s.Dgs) >= 6 {
+			s.Bound = 1 // a datagram at every tick of the whole budget: the two-preemption space of these alone took over an hour
+		}
 		if s.Tries >= 3 && !thorough && s.Bound > 1 {
 			s.Bound = 1 // three tries: one preemption in the quick tier
 		}
